@@ -48,6 +48,9 @@ type c13Run struct {
 	hist     []string
 	revoked  map[string]bool
 	pullN    int
+	// why each document left the user's view (the world event that did it) and whether it was written again since
+	lostBy        map[string]string
+	rewrittenLost map[string]bool
 }
 
 type c13Env struct {
@@ -291,6 +294,17 @@ func (r *c13Run) pull(limit int) map[string]string {
 	for id := range r.replica {
 		if _, ok := want[id]; !ok {
 			why := "left the user's view"
+			// root cause class: which kind of event took the document out of the user's view; a deleted role is its own class
+			// (the role's channel history is gone with it), with the two ways it shows: the document was written again after
+			// the loss, or the revocations had to be paged
+			if r.lostBy[id] == "r:del" {
+				kind := "paged-revocation"
+				if r.rewrittenLost[id] {
+					kind = "document-rewritten-after-the-loss"
+				}
+				viol["C13/client-keeps-document-after-role-deletion/"+kind] = fmt.Sprintf("after pull %d the client still holds %s, which left the user's view when the role was deleted, without a removal, deletion or revocation notice; user can see %v; history %v", r.pullN, id, want, r.hist)
+				continue
+			}
 			viol["C13/client-keeps-document-it-may-no-longer-see/"+tag] = fmt.Sprintf("after pull %d the client still holds %s which %s without a removal, deletion or revocation notice; user can see %v; history %v", r.pullN, id, why, want, r.hist)
 		}
 	}
@@ -390,7 +404,27 @@ func (e *c13Env) run(t testing.TB, r *vreport.Report, hist []string) {
 			continue
 		}
 		tws := time.Now()
+		visBefore := run.visible()
 		err := run.world(sym)
+		if run.lostBy == nil {
+			run.lostBy, run.rewrittenLost = map[string]string{}, map[string]bool{}
+		}
+		visAfter := run.visible()
+		for id := range visBefore {
+			if _, still := visAfter[id]; !still {
+				run.lostBy[id] = sym
+				run.rewrittenLost[id] = false
+			}
+		}
+		for id := range visAfter {
+			delete(run.lostBy, id)
+			delete(run.rewrittenLost, id)
+		}
+		if strings.HasPrefix(sym, "d") {
+			if id := sym[:strings.Index(sym, ":")]; run.lostBy[id] != "" && run.lostBy[id] != sym {
+				run.rewrittenLost[id] = true
+			}
+		}
 		r.Add("ms_in_world_steps", time.Since(tws).Milliseconds())
 		// Let the mutation feed deliver this step before the next one: a principal document rewritten before its previous
 		// mutation was delivered loses that mutation's sequence on the feed (the cache then waits for its pending
